@@ -521,7 +521,7 @@ Proof. intros. rewrite nf_fixed. rewrite Rmax_right by lra. f_equal. lra. Qed.
 (* channel input power referred to a 50 GHz slot, as used by the OpenROADM models *)
 Definition pin50 (pin_db nch sw : R) : R := pin_db - lin2dbR nch + lin2dbR (50000000000 / sw).
 
-Lemma dec_50e9 : @dec NumR 50 9 = 50000000000.
+Lemma dec_50e9 : @dec NumR 5 10 = 50000000000.
 Proof. unfold dec. cbn. numR. lra. Qed.
 
 (* OpenROADM ILA: OSNR contribution = polynomial of the 50 GHz input power; NF = Pin + 58 - OSNR (+ padding) *)
